@@ -133,9 +133,9 @@ impl Property for P {
             vec![F::Hel { pv: 1, bufs_ok: true, url_ok: true }, O], vec![F::Hel { pv: 0, bufs_ok: false, url_ok: true }, O],
             vec![F::Hel { pv: 0, bufs_ok: true, url_ok: false }, O, M],
         ];
-        // all sequences over {H, O, R, M, C, A} up to length 4 (quick) / 6 (thorough)
+        // all sequences over {H, O, R, M, C, A} up to length 4 (quick) / 5 (thorough)
         let alpha = [H, O, R, M, C, F::Ack];
-        let maxlen = if tier == "thorough" { 6 } else { 4 };
+        let maxlen = if tier == "thorough" { 5 } else { 4 };
         let mut level: Vec<Vec<F>> = vec![vec![]];
         for _ in 0..maxlen {
             let mut next = Vec::new();
